@@ -27,14 +27,14 @@ def run(ctx):
         ctx.guard("C12", "reset", lambda: gen.reset_equals_new(ctx, prog))
         ctx.guard("C12", "reset-side", lambda: gen.reset_side_conditions(ctx, prog))
         ctx.guard("C12", "init", lambda: piece.initial_state(ctx, prog))
-        ctx.guard("C12", "summaries", lambda: summary.check(ctx, prog, 'Generator::(new|set_fixed_input_size_in_usize)$|<internals::generate::Generator as core::default::Default|generate_easy', floor=2))
-        ctx.guard("C12", "path summaries", lambda: summary.check_paths(ctx, prog, 'Generator::(new|set_fixed_input_size_in_usize)$|<internals::generate::Generator as core::default::Default|generate_easy', floor=0))
-        if c in ("dbg", "unsafe_dbg", "strict_dbg"):
-            ctx.guard("C12", "beliefs", lambda: beliefs.census(ctx, prog, beliefs.SCOPES["C12"][0], floor=beliefs.SCOPES["C12"][1]))
         if c != "nodef":
             # the front ends that declare a size on the caller's behalf declare the right one (buffer length / metadata of the opened file)
             ctx.guard("C12", "buf", lambda: errflow.buf(ctx, prog))
             ctx.guard("C12", "file", lambda: errflow.stream_and_file(ctx, prog))
         if not c.startswith("unsafe"):
             ctx.guard("C12", "piece", lambda: piece.piece_effects(ctx, prog))
+        ctx.guard("C12", "summaries", lambda: summary.check(ctx, prog, 'Generator::(new|set_fixed_input_size_in_usize)$|<internals::generate::Generator as core::default::Default|generate_easy', floor=2))
+        ctx.guard("C12", "path summaries", lambda: summary.check_paths(ctx, prog, 'Generator::(new|set_fixed_input_size_in_usize)$|<internals::generate::Generator as core::default::Default|generate_easy', floor=0))
+        if c in ("dbg", "unsafe_dbg", "strict_dbg"):
+            ctx.guard("C12", "beliefs", lambda: beliefs.census(ctx, prog, beliefs.SCOPES["C12"][0], floor=beliefs.SCOPES["C12"][1]))
     return ctx.finish(EXPL, ["rustc MIR faithfully represents the program", "symbolic values of single-assignment MIR temporaries compared as canonical text"])
